@@ -291,6 +291,236 @@ theorem parseLoop_letters : ∀ (cs acc : List Char) (s0 : Nat) (letters : List 
             · rw [ih _ _ _ _ h]; simp [hup]
       · cases h
 
+/-! ### completeness of the parser -/
+
+theorem eq_mod_of_bits (s0 sp i : Nat) (hi : 1 ≤ i) (hs : s0 < 2 ^ i)
+    (hlow : sp % 2 ^ (i - 1) = s0 % 2 ^ (i - 1)) (hb : s0.testBit (i - 1) = sp.testBit (i - 1)) :
+    s0 = sp % 2 ^ i := by
+  apply Nat.eq_of_testBit_eq
+  intro j
+  rw [Nat.testBit_mod_two_pow]
+  rcases Nat.lt_trichotomy j (i - 1) with hj | hj | hj
+  · have h1 := congrArg (fun x => x.testBit j) hlow
+    simp only [Nat.testBit_mod_two_pow, hj, decide_true, Bool.true_and] at h1
+    have : j < i := by omega
+    simp [this, h1]
+  · subst hj
+    have : i - 1 < i := by omega
+    simp [this, hb]
+  · have hji : ¬ j < i := by omega
+    have hle : 2 ^ i ≤ 2 ^ j := Nat.pow_le_pow_right (by omega) (by omega)
+    have : s0.testBit j = false := Nat.testBit_lt_two_pow (by omega)
+    simp [hji, this]
+
+theorem looseFrom_upper (sp : Nat) : ∀ (ls : List Char) (i : Nat) (c : Char),
+    (∀ x ∈ ls, isUpper x = true) → c ∈ looseFrom sp i ls → c = bullet ∨ isUpper c = true := by
+  intro ls
+  induction ls with
+  | nil =>
+    intro i c _ hc
+    simp only [looseFrom] at hc
+    split at hc
+    · simp at hc; exact Or.inl hc
+    · simp at hc
+  | cons l ls ih =>
+    intro i c hup hc
+    simp only [looseFrom] at hc
+    rcases List.mem_append.mp hc with h | h
+    · split at h
+      · simp at h; exact Or.inl h
+      · simp at h
+    · rcases List.mem_cons.mp h with h | h
+      · exact Or.inr (h ▸ hup l (by simp))
+      · exact ih _ _ (fun x hx => hup x (by simp [hx])) h
+
+/-- the part of `looseFrom` after the optional spacer starts with a letter or is empty -/
+def looseTail (sp : Nat) (i : Nat) : List Char → List Char
+  | [] => []
+  | c :: ls => c :: looseFrom sp (i + 1) ls
+
+theorem looseFrom_split (sp i : Nat) (ls : List Char) :
+    looseFrom sp i ls = (if sp.testBit (i - 1) then [bullet] else []) ++ looseTail sp i ls := by
+  cases ls <;> simp [looseFrom, looseTail]
+
+theorem looseTail_head_ne_bullet (sp i : Nat) (ls rest : List Char)
+    (hup : ∀ x ∈ ls, isUpper x = true) : looseTail sp i ls ≠ bullet :: rest := by
+  cases ls with
+  | nil => simp [looseTail]
+  | cons c ls =>
+    simp only [looseTail]
+    intro h
+    injection h with h1 _
+    have := hup c (by simp)
+    rw [h1] at this
+    exact absurd this (by decide)
+
+theorem parseLoop_complete (sp : Nat) : ∀ (cs acc : List Char) (s0 : Nat),
+    acc ≠ [] → s0 < 2 ^ acc.length →
+    (∀ c ∈ cs, isUpper c = true ∨ isSpacer c = true) →
+    acc.length + (cs.filter isUpper).length ≤ 32 →
+    sp % 2 ^ (acc.length - 1) = s0 % 2 ^ (acc.length - 1) →
+    (s0.testBit (acc.length - 1) = true → sp.testBit (acc.length - 1) = true) →
+    (if s0.testBit (acc.length - 1) then [bullet] else []) ++ normalize cs =
+      looseFrom sp acc.length (cs.filter isUpper) →
+    parseLoop acc s0 cs = .ok (acc.reverse ++ cs.filter isUpper,
+      sp % 2 ^ (acc.length + (cs.filter isUpper).length)) := by
+  intro cs
+  induction cs with
+  | nil =>
+    intro acc s0 hacc hs _ _ hlow himp heq
+    have hi : 1 ≤ acc.length := by
+      cases acc with
+      | nil => exact absurd rfl hacc
+      | cons _ _ => simp
+    have hb : s0.testBit (acc.length - 1) = sp.testBit (acc.length - 1) := by
+      simp only [normalize, List.map_nil, List.append_nil, List.filter_nil, looseFrom] at heq
+      cases h1 : s0.testBit (acc.length - 1) <;> cases h2 : sp.testBit (acc.length - 1) <;>
+        simp [h1, h2] at heq ⊢
+    have := eq_mod_of_bits s0 sp acc.length hi hs hlow hb
+    simp [parseLoop, ← this]
+  | cons c cs ih =>
+    intro acc s0 hacc hs hchars hlen hlow himp heq
+    have hi : 1 ≤ acc.length := by
+      cases acc with
+      | nil => exact absurd rfl hacc
+      | cons _ _ => simp
+    have hfilt : ∀ x ∈ cs.filter isUpper, isUpper x = true := by
+      intro x hx; exact (List.mem_filter.mp hx).2
+    rcases hchars c (by simp) with hup | hsp
+    · -- a letter
+      rw [normalize_cons_upper hup] at heq
+      simp only [List.filter_cons, hup, if_true, looseFrom] at heq hlen ⊢
+      have hcb : c ≠ bullet := by intro h; rw [h] at hup; exact absurd hup (by decide)
+      have hb : s0.testBit (acc.length - 1) = sp.testBit (acc.length - 1) ∧
+          normalize cs = looseFrom sp (acc.length + 1) (cs.filter isUpper) := by
+        cases h1 : s0.testBit (acc.length - 1) <;> cases h2 : sp.testBit (acc.length - 1) <;>
+          simp [h1, h2] at heq ⊢
+        · exact heq
+        · exact absurd heq.1 hcb
+        · exact absurd heq.1.symm hcb
+        · exact heq
+      have hs0 := eq_mod_of_bits s0 sp acc.length hi hs hlow hb.1
+      have hrec := ih (c :: acc) s0 (by simp) (by simp only [List.length_cons, Nat.pow_succ]; omega)
+        (fun x hx => hchars x (by simp [hx])) (by simp only [List.length_cons] at hlen ⊢; omega)
+        (by simp only [List.length_cons, Nat.add_sub_cancel]; rw [Nat.mod_eq_of_lt hs]; exact hs0.symm)
+        (by
+          intro h
+          simp only [List.length_cons, Nat.add_sub_cancel] at h
+          rw [Nat.testBit_lt_two_pow hs] at h; cases h)
+        (by
+          simp only [List.length_cons, Nat.add_sub_cancel, Nat.testBit_lt_two_pow hs,
+            Bool.false_eq_true, if_false, List.nil_append]
+          exact hb.2)
+      simp only [parseLoop, hup, if_true]
+      rw [hrec]
+      simp only [List.reverse_cons, List.append_assoc, List.singleton_append, List.length_cons]
+      rw [show acc.length + 1 + (cs.filter isUpper).length =
+        acc.length + ((cs.filter isUpper).length + 1) from by omega]
+    · -- a spacer
+      have hnup := not_upper_of_spacer hsp
+      rw [normalize_cons_spacer hsp] at heq
+      simp only [List.filter_cons, hnup, Bool.false_eq_true, if_false] at heq hlen ⊢
+      rw [looseFrom_split] at heq
+      have hb : s0.testBit (acc.length - 1) = false ∧ sp.testBit (acc.length - 1) = true := by
+        cases h1 : s0.testBit (acc.length - 1) <;> cases h2 : sp.testBit (acc.length - 1) <;>
+          simp [h1, h2] at heq ⊢
+        · exact looseTail_head_ne_bullet sp _ _ _ hfilt heq.symm
+        · have := himp h1; rw [h2] at this; cases this
+        · exact looseTail_head_ne_bullet sp _ _ _ hfilt heq.symm
+      have hs1 : s0 < 2 ^ (acc.length - 1) := by
+        apply lt_of_not_testBit _ hb.1
+        have : acc.length - 1 + 1 = acc.length := by omega
+        rw [this]; exact hs
+      have hs2 : 2 ^ (acc.length - 1) + s0 < 2 ^ acc.length := by
+        have : 2 ^ acc.length = 2 ^ (acc.length - 1) * 2 := by
+          rw [← Nat.pow_succ]; congr 1; omega
+        omega
+      have hset : (2 ^ (acc.length - 1) + s0).testBit (acc.length - 1) = true := by
+        rw [Nat.testBit_two_pow_add_eq, hb.1]; rfl
+      have hmod : (2 ^ (acc.length - 1) + s0) % 2 ^ (acc.length - 1) = s0 := by
+        rw [Nat.add_mod, Nat.mod_self, Nat.zero_add, Nat.mod_mod, Nat.mod_eq_of_lt hs1]
+      have hrec := ih acc (2 ^ (acc.length - 1) + s0) hacc hs2
+        (fun x hx => hchars x (by simp [hx])) hlen
+        (by rw [hmod, hlow, Nat.mod_eq_of_lt hs1])
+        (fun _ => hb.2)
+        (by
+          rw [hset, looseFrom_split, hb.2]
+          simp only [hb.1, hb.2, Bool.false_eq_true, if_false, if_true, List.nil_append] at heq ⊢
+          exact heq)
+      have hz : ¬ (acc.length = 0) := by omega
+      have hk : ¬ (acc.length - 1 ≥ 32) := by omega
+      simp only [parseLoop, hnup, Bool.false_eq_true, if_false, hsp, if_true, hz, hk, hb.1]
+      rw [or_two_pow hs1]
+      exact hrec
+
+/-- a name whose value fits in 128 bits has at most 28 letters -/
+theorem name_length_le (l : List Char) (h : bij l ≤ 2 ^ 128) : l.length ≤ 28 := by
+  have h1 := pow_le_bijRev l.reverse
+  rw [← bij_eq_bijRev, List.length_reverse] at h1
+  rcases Nat.lt_or_ge l.length 29 with hl | hl
+  · omega
+  · have h2 : 26 ^ 29 ≤ 26 ^ l.length := Nat.pow_le_pow_right (by omega) hl
+    have h3 : 25 * (2 ^ 128) + 1 < 26 ^ 29 := by decide
+    omega
+
+/-- every string of the grammar whose name fits is accepted, with the rune and mask it denotes -/
+theorem parse_complete (s : List Char) (r sp : Nat)
+    (hchars : ∀ c ∈ s, isUpper c = true ∨ isSpacer c = true)
+    (hne : s.filter isUpper ≠ []) (hb : bij (s.filter isUpper) = r + 1) (hr : r < 2 ^ 128)
+    (hsp : sp < 2 ^ ((s.filter isUpper).length - 1))
+    (hnorm : normalize s = interleave sp 0 (s.filter isUpper)) :
+    parse s = .ok (r, sp) := by
+  have hfilt : ∀ x ∈ s.filter isUpper, isUpper x = true := by
+    intro x hx; exact (List.mem_filter.mp hx).2
+  have hlen28 := name_length_le (s.filter isUpper) (by omega)
+  cases s with
+  | nil => simp at hne
+  | cons c cs =>
+    have hup : isUpper c = true := by
+      rcases hchars c (by simp) with h | h
+      · exact h
+      · -- a leading spacer cannot be the first printed character
+        exfalso
+        have hnup := not_upper_of_spacer h
+        rw [normalize_cons_spacer h] at hnorm
+        simp only [List.filter_cons, hnup, Bool.false_eq_true, if_false] at hnorm hne
+        cases hl : cs.filter isUpper with
+        | nil => exact hne hl
+        | cons l ls =>
+          rw [hl] at hnorm
+          have hlu : isUpper l = true := (List.mem_filter.mp (hl ▸ List.mem_cons_self)).2
+          cases ls with
+          | nil => simp [interleave] at hnorm; rw [← hnorm.1] at hlu; exact absurd hlu (by decide)
+          | cons l2 ls2 =>
+            simp only [interleave] at hnorm
+            split at hnorm <;>
+              (injection hnorm with h1 _; rw [← h1] at hlu; exact absurd hlu (by decide))
+    simp only [List.filter_cons, hup, if_true] at hne hb hsp hnorm hlen28 hfilt
+    rw [normalize_cons_upper hup] at hnorm
+    have hbit : sp.testBit (0 + (cs.filter isUpper).length) = false := by
+      apply Nat.testBit_lt_two_pow
+      simpa using hsp
+    rw [interleave_eq_loose sp _ c 0 hbit] at hnorm
+    injection hnorm with _ hnorm
+    have hloop := parseLoop_complete sp cs [c] 0 (by simp) (by simp)
+      (fun x hx => hchars x (by simp [hx])) (by simp only [List.length_cons] at hlen28 ⊢; simp; omega)
+      (by simp [Nat.mod_one]) (by simp) (by simpa using hnorm)
+    simp only [List.length_singleton, List.reverse_singleton, List.singleton_append] at hloop
+    have hsp' : sp % 2 ^ (1 + (cs.filter isUpper).length) = sp := by
+      apply Nat.mod_eq_of_lt
+      have : 2 ^ (cs.filter isUpper).length ≤ 2 ^ (1 + (cs.filter isUpper).length) :=
+        Nat.pow_le_pow_right (by omega) (by omega)
+      simp only [List.length_cons, Nat.add_sub_cancel] at hsp
+      omega
+    rw [hsp'] at hloop
+    have hparse : Rune.parse (c :: cs.filter isUpper) = .ok r :=
+      (parse_ok_iff _ _).mpr (Or.inr ⟨by simp, hfilt, hb, hr⟩)
+    have h1 : ¬ ((c :: cs.filter isUpper).length ≥ 2 ^ 32) := by omega
+    have hbl := bitLen_le hsp
+    have h2 : ¬ (bitLen sp ≥ (c :: cs.filter isUpper).length) := by
+      simp only [List.length_cons, Nat.add_sub_cancel] at hbl ⊢; omega
+    simp only [parse, parseLoop, hup, if_true, hloop, h1, h2, if_false, hparse]
+
 /-- acceptance implies denotation: the letters of `s` form a name with value `r + 1`, the mask
 fits below the last letter, and `s` (with `.` read as `•`) is exactly the printed form -/
 theorem parse_ok (s : List Char) (r sp : Nat) (h : parse s = .ok (r, sp)) :
